@@ -78,6 +78,9 @@ func (u *Unsubscribe) Unpack(r io.Reader) error {
 	if err != nil {
 		return err
 	}
+	if u.PacketID == 0 { // [MQTT-2.2.1-3]
+		return codes.ErrProtocol
+	}
 
 	if u.Version == Version5 {
 		u.Properties = &Properties{}
